@@ -230,7 +230,7 @@ impl Scenario for C17 {
             spec.pre = rng.below(4) as u32;
             return spec;
         }
-        if rng.chance(1, 625) {
+        if rng.chance(1, if _tier == Tier::Quick { 625 } else { 6_250 }) {
             // marathon: a rare event in the key stream itself (two equal adjacent words: 2^-32 per word) must
             // not open the text either, and cannot be crafted for a non-invertible cipher: twins with
             // different seeds simply produce 2^27 words each (2^29 in the thorough tier)
